@@ -143,6 +143,7 @@ let run_case op0 t =
         if not (dom_charconv bi) then "na"
         else if checked then ti_show (gparse ty ws plus s base)
         else if not ty.sgn then ti_show (nc_unsigned_spec ty ws plus s base)
+        else if Big.to_int (big_of_z ty.bits) <= 16 then ti_show (nc_signed_narrow_spec ty ws plus s base)   (* C10_to_integer_unchecked_signed_narrow *)
         else (match gparse ty ws plus s base with ((_, TiNone), _) as r -> ti_show r | _ -> "na") in
       (m, p)
   | "to_string" ->
